@@ -19,7 +19,7 @@ theorem conv_out_len_full (m n s k : Int) (hs : 0 < s) :
     (0 ≤ k ∧ k * s < m + n - 1) ↔ (0 ≤ k ∧ k < Gen.convFullLen m n s) := by
   unfold Gen.convFullLen
   -- `convert … <;> ring`: an algebraically equivalent rewrite of the numerator in the source keeps the proof
-  convert ceil_count (m + n - 1) s k hs using 4 <;> ring
+  convert ceil_count (m + n - 1) s k hs using 4 <;> first | ring1 | omega
 
 /-- 'valid' with the data at least as long as the filter: `p = ⌈(m-n+1)/s⌉` counts the samples
     `0, s, 2s, … < m-n+1`.  (Proved so that it also holds for the repaired formula `abs(m_d - n_d) + 1 + …`.) -/
@@ -27,7 +27,7 @@ theorem conv_out_len_valid (m n s k : Int) (hs : 0 < s) (hmn : n ≤ m) :
     (0 ≤ k ∧ k * s < m - n + 1) ↔ (0 ≤ k ∧ k < Gen.convValidLen m n s) := by
   unfold Gen.convValidLen
   convert ceil_count (m - n + 1) s k hs using 4 <;>
-    first | ring1 | (unfold intAbs; split_ifs <;> omega)
+    first | ring1 | (simp only [intAbs]; split_ifs <;> omega) | omega
 
 /-- In 'full' mode, and in 'valid' mode with the data at least as long as the filter, the advertised
     length is exactly the number of samples of scipy's result (`m+n-1` resp. `|m-n|+1` long) kept by the
@@ -50,7 +50,9 @@ theorem conv_out_len_valid_any (m n s k : Int) (hs : 0 < s) :
     (0 ≤ k ∧ k * s < scipyLen false m n) ↔ (0 ≤ k ∧ k < Gen.convValidLen m n s) := by
   unfold Gen.convValidLen scipyLen
   simp only [Bool.false_eq_true, if_false]
-  convert ceil_count (intAbs (m - n) + 1) s k hs using 4 <;> ring
+  -- up to `ring` / case split of `abs` + `omega`: `abs(n_d - m_d)`, a re-associated numerator, … keep the proof
+  convert ceil_count (intAbs (m - n) + 1) s k hs using 4 <;>
+    first | ring1 | (simp only [intAbs]; split_ifs <;> omega) | omega
 
 /-- both modes, either size order: the advertised length counts exactly the samples `0, s, 2s, …` of scipy's
     result kept by the stride slice -/
@@ -98,15 +100,20 @@ example : Gen.convValidRejects [2, 2] [3, 3] = false := by decide
 
 /-! ### the adjoints' branches: buffer length, correlate mode, index shift -/
 
+set_option linter.unusedSimpArgs false in
+set_option linter.unusedTactic false in
+set_option linter.unreachableTactic false in
 /-- both adjoints allocate the zero-stuffed buffer with scipy's un-strided output length -/
 theorem adj_buf_len (full : Bool) (m n : Int) :
     (if full then Gen.dataAdjBufLenFull m n else Gen.dataAdjBufLenValid m n) = scipyLen full m n ∧
     (if full then Gen.filtAdjBufLenFull m n else Gen.filtAdjBufLenValid m n) = scipyLen full m n := by
-  unfold Gen.dataAdjBufLenFull Gen.dataAdjBufLenValid Gen.filtAdjBufLenFull Gen.filtAdjBufLenValid
-    scipyLen intAbs pyMax pyMin
-  cases full
-  · simp only [Bool.false_eq_true, if_false]; constructor <;> split_ifs <;> omega
-  · simp
+  -- proved up to linear arithmetic over the case splits of `max` / `min` / `abs`: any spelling of the two
+  -- generated formulas that is equal to scipy's length as an integer function keeps the proof
+  -- (`max(m, n) - min(m, n) + 1`, `abs(m - n) + 1`, `abs(n - m) + 1`, `n + m - 1`, `m - 1 + n`, …)
+  constructor <;> cases full <;>
+    simp only [Bool.false_eq_true, ↓reduceIte, Gen.dataAdjBufLenValid, Gen.filtAdjBufLenValid, Gen.dataAdjBufLenFull,
+      Gen.filtAdjBufLenFull, scipyLen, intAbs, pyMax, pyMin] <;>
+    (try split_ifs) <;> omega
 
 /-- With the correlate mode chosen by `_convolve_data_adjoint`'s branches, scipy's correlate reads the
     buffer at `i + j - off` with the *same* offset `off` the forward convolution uses — for both modes and
